@@ -1,5 +1,7 @@
 package rules
 
+import "kyverif/internal/efx"
+
 // Registration of the properties. Each Run composes rule families; the
 // per-family instance tables live next to the family.
 
@@ -22,9 +24,30 @@ func gateRun(prop string) func(c *Ctx) {
 const gateRuleText = "APO-GATE: for every frozen check (canonical condition built from resolved callees, parameter indices, field names, constants) of each listed verifier/decoder/recovery function, under the assumption that the check fails every time it is evaluated no accept outcome (return of nil error / true, or designated state mutation) is reachable in the SSA control-flow graph (3-valued evaluation of values derived from the check through !, ==nil, phi); the check lies on every accepting path where it did (dominance); APO-DEP: the checked value still depends (over-approximate data dependence with in-module summaries) on every parameter/field it depended on. An obligation is non-trivial when a branch, phi or return had to be evaluated for it."
 
 func init() {
-	for _, id := range []string{"C07", "C08", "C09", "C10", "C11", "C12", "C13", "C14", "C15", "C16", "C17"} {
+	for _, id := range []string{"C02", "C04", "C06", "C19", "C07", "C08", "C09", "C10", "C11", "C12", "C13", "C14", "C15", "C16", "C17"} {
 		id := id
 		Register(&Property{ID: id, RuleText: gateRuleText, Trusted: commonTrusted, Run: gateRun(id),
 			Explanation: "structural accept-path clauses only (level other); see DESIGN.md"})
 	}
+}
+
+func init() {
+	Register(&Property{ID: "C05", Trusted: commonTrusted, RuleText: "EFX-OPI / SH-RET / EFX-INDEP", Explanation: "value semantics (effects)", Run: func(c *Ctx) {
+		p := c.Prog("default")
+		if p == nil {
+			return
+		}
+		an := efx.NewAnalyzer(p)
+		EFXValueSemantics(c, "default", an)
+		c.R.Extra["efx_stats"] = an.Stats
+	}})
+	Register(&Property{ID: "C20", Trusted: commonTrusted, RuleText: "EFX-RO", Explanation: "read-only (effects)", Run: func(c *Ctx) {
+		p := c.Prog("default")
+		if p == nil {
+			return
+		}
+		an := efx.NewAnalyzer(p)
+		EFXReadOnlyTypes(c, "default", an)
+		c.R.Extra["efx_stats"] = an.Stats
+	}})
 }
